@@ -101,6 +101,7 @@ BLANK = 'conversion.py::SeismicFileConverter.get_blank_header_info'
 class HeaderwordInfoInitCallSite(Contract):
     """call-site view of HeaderwordInfo(...): records the constructor arguments (the constructor itself is under contract in
     c_headers_write)"""
+    only_in = ('SeismicFileConverter.get_blank_header_info',)
     modular_use = True
     exact_result = True
     variant = 'call-site view'
